@@ -483,7 +483,11 @@ func (f *frame) callContract(st *State, callee *ssa.Function, cc *Contract, args
 				"panic propagated from "+short+" only when: "+f.c.PanicsIf.Src, pos, false)
 			vc.assumeUnder(st.reach, not(q))
 		} else {
-			vc.obligeAndAssume(st, "pre."+short+".nopanic", not(q), "call does not panic: not ("+cc.PanicsIf.Src+")", pos)
+			kind, desc := "pre."+short+".nopanic", "call does not panic: not ("+cc.PanicsIf.Src+")"
+			if strings.HasSuffix(short, "assert.That") {
+				kind, desc = "assert", "precondition of assert.That: cond"
+			}
+			vc.obligeAndAssume(st, kind, not(q), desc, pos)
 		}
 	}
 	for _, e := range cc.Ensures {
